@@ -426,7 +426,7 @@ def _site(outcome, env):
     return "exit[%s]" % msg[:48]
 
 
-def body_action(E, action, n, m, nsample_hi, preset='soft-restarts', num_pts=None, npt_so_far=None):
+def body_action(E, action, n, m, nsample_hi, preset='soft-restarts', num_pts=None, npt_so_far=None, vary_npt=False):
     """one Controller action (real code) from an arbitrary valid state: geometry_step / soft_restart / add_new_direction_while_growing"""
     np = E.np
     log = EvalLog()
@@ -453,9 +453,17 @@ def body_action(E, action, n, m, nsample_hi, preset='soft-restarts', num_pts=Non
     steps = []
     if action == 'soft_restart':
         mv = bool(E.is_true(E.bool('move_xk')))
-        ngs = int(E.int('num_geom_steps', 0, 4))
+        ngs = int(E.int('num_geom_steps', 0, 1 if vary_npt else 4))
         params.params["restarts.soft.move_xk"] = mv
         params.params["restarts.soft.num_geom_steps"] = ngs
+        if vary_npt:
+            # growing the point set at a restart: switch, increment and room are all arbitrary
+            inc = bool(E.is_true(E.bool('increase_npt')))
+            amt = int(E.int('increase_npt_amt', 1, 2))
+            room = int(E.int('room', 0, 2))
+            params.params["restarts.increase_npt"] = inc
+            params.params["restarts.increase_npt_amt"] = amt
+            params.params["restarts.max_npt"] = num_pts + room
         orig_gs = E.get('Controller').geometry_step
 
         def gs(self, knew, adelt, number_of_samples, params_):
@@ -499,6 +507,11 @@ def body_action(E, action, n, m, nsample_hi, preset='soft-restarts', num_pts=Non
         E.prove(E.le(post, pre_final), 'C04:%s:best-value-never-increases' % action)
         for R in news:
             E.prove(E.le(post, R['obj']), 'C04:%s:not-worse-than-a-point-evaluated-here' % action)
+    if action == 'soft_restart' and vary_npt:
+        E.prove(inc or 'directions' not in rec['rng'], 'C19:soft_restart:random-directions-only-when-restarts.increase_npt-is-on')
+        if exit_info is None:
+            E.prove(M.npt() - npt_so_far == (min(amt, room) if inc else 0), 'C18:soft_restart:adds-min(increase_npt_amt,room)-points-iff-switched-on')
+        E.prove(M.npt() <= num_pts + room, 'C18:soft_restart:never-more-points-than-restarts.max_npt')
     if action == 'soft_restart' and exit_info is None:
         avail = npt_so_far if mv else npt_so_far - 1
         E.prove(len(steps) == min(ngs, avail), 'C07:soft_restart:performs-min(num_geom_steps,available-points)-geometry-steps')
@@ -595,14 +608,18 @@ def step_harnesses(tier, seed, pid):
 def action_harnesses(tier, seed, pid):
     hs = []
     S, G = 'soft-restarts', 'growing-2dirs'
-    combos = [('geometry_step', 1, 1, 2, S, 2, 2), ('soft_restart', 1, 1, 1, S, 2, 2), ('soft_restart', 2, 1, 1, G, 3, 2), ('add_new_direction', 2, 1, 1, G, 3, 2)] \
+    combos = [('geometry_step', 1, 1, 2, S, 2, 2), ('soft_restart', 1, 1, 1, S, 2, 2), ('soft_restart', 2, 1, 1, G, 3, 2), ('add_new_direction', 2, 1, 1, G, 3, 2),
+              ('soft_restart+npt', 1, 1, 1, S, 2, 2)] \
         if tier == 'quick' else \
         [('geometry_step', 1, 1, 2, S, 2, 2), ('geometry_step', 2, 1, 2, S, 3, 3), ('geometry_step', 1, 1, 3, S, 2, 2), ('soft_restart', 1, 1, 1, S, 2, 2),
          ('soft_restart', 2, 1, 1, S, 3, 3), ('soft_restart', 1, 1, 2, S, 2, 2), ('soft_restart', 2, 1, 1, G, 3, 2), ('add_new_direction', 2, 1, 1, G, 3, 2),
-         ('add_new_direction', 2, 1, 2, G, 3, 2), ('add_new_direction', 2, 1, 1, G, 3, 3)]
+         ('add_new_direction', 2, 1, 2, G, 3, 2), ('add_new_direction', 2, 1, 1, G, 3, 3), ('soft_restart+npt', 1, 1, 1, S, 2, 2), ('soft_restart+npt', 1, 1, 2, S, 2, 2)]
+    if pid in ('C18', 'C19'):
+        combos = [c for c in combos if c[0] == 'soft_restart+npt']
     for (action, n, m, hi, preset, num_pts, npt_so_far) in combos:
+        vary_npt = action.endswith('+npt')
         hs.append(Harness("action[%s,n=%d,m=%d,npt=%d/%d,samples<=%d]" % (action, n, m, npt_so_far, num_pts, hi), 'dfverif.step', 'body_action',
-                          params=dict(action=action, n=n, m=m, nsample_hi=hi, preset=preset, num_pts=num_pts, npt_so_far=npt_so_far),
+                          params=dict(action=action.split('+')[0], n=n, m=m, nsample_hi=hi, preset=preset, num_pts=num_pts, npt_so_far=npt_so_far, vary_npt=vary_npt),
                           cfg=core.Cfg(qtimeout_ms=20000, uflin=True, max_depth=3000),
                           functions=['controller.Controller.geometry_step', 'controller.Controller.soft_restart', 'controller.Controller.add_new_direction_while_growing',
                                      'controller.Controller.evaluate_objective', 'controller.Controller.choose_point_to_replace',
